@@ -748,6 +748,39 @@ func runC02(r *Run) {
 		r.Bad("R7", "anchor/StateDB.CreateAccount", "", "not found")
 	}
 
+	// R10: SELFDESTRUCT empties the destroyed object every time it reports success
+	r.Rule("R10", "PATH.suicide-clears-balance: StateDB.Suicide (the interpreter credits the beneficiary with the contract's balance and then calls it) reaches no return other than the 'no such account' one without writing the object's cached balance (a store to account.Balance or setBalance/SetBalance) — a contract can be funded again and self-destruct again within one transaction; if the second call leaves the cached balance in place the same coins sit with the beneficiary and with the contract, and Commit mints the difference")
+	if sf, ok := P.FnOK("(*x/evm/statedb.StateDB).Suicide"); ok {
+		var get *ssa.Call
+		eachInstr(sf, func(in ssa.Instruction) {
+			if c, ok := in.(*ssa.Call); ok && callInfo(c).Name == "getStateObject" && get == nil {
+				get = c
+			}
+		})
+		isClear := func(in ssa.Instruction) bool {
+			switch x := in.(type) {
+			case *ssa.Store:
+				_, f, ok := fieldOfAddr(x.Addr)
+				return ok && f == "Balance"
+			case ssa.CallInstruction:
+				n := callInfo(x).Name
+				return n == "setBalance" || n == "SetBalance"
+			}
+			return false
+		}
+		isRet := func(in ssa.Instruction) bool { _, ok := in.(*ssa.Return); return ok }
+		if get == nil {
+			r.Bad("R10", fnID(sf)+"#clears-balance", P.Pos(fnPos(sf)), "Suicide no longer obtains the object with getStateObject")
+		} else {
+			objNil, _ := condEdges(sf, func(x, y ssa.Value) bool { return stripValue(x) == ssa.Value(get) && isNilConst(y) })
+			w := PathQuery{Fn: sf, Start: get, Block: isClear, Target: isRet, DelEdge: edgeSet(objNil)}.Search()
+			r.Check(w == nil && len(objNil) > 0, "R10", fnID(sf)+"#clears-balance", P.Pos(fnPos(sf)), "every return for an existing object passes a write of its cached balance",
+				"Suicide can return for an existing object without resetting its cached balance: value that reached an already self-destructed contract again is credited to the beneficiary by the interpreter and stays with the contract too — Commit mints the difference", P.witness(w)...)
+		}
+	} else {
+		r.Bad("R10", "anchor/StateDB.Suicide", "", "not found")
+	}
+
 }
 
 // checkDepVersions: the frozen effects table is only valid for the dependency versions it was read from.
